@@ -352,7 +352,7 @@ func (ss *Sorts) rangeFact(t types.Type, term, top string) string {
 	case KSlice:
 		if el := elemOfSliceType(t); el != nil {
 			if sz := sizeofType(el); sz > 1 {
-				return fmt.Sprintf("(and (slice_ok %s %s) (<= (* (s_cap %s) %d) 140737488355328))", term, top, term, sz)
+				return fmt.Sprintf("(and (slice_ok %s %s) (<= (* (s_cap %s) %d) 70368744177664))", term, top, term, sz)
 			}
 		}
 		return fmt.Sprintf("(slice_ok %s %s)", term, top)
